@@ -46,6 +46,19 @@ def check_stream(ctx, label, ops_path, impl_path, use_oracle=True, sample=False)
     return broken
 
 
+def hist_total(ctx, res, key):
+    """sum of the HIST lines (operation:result -> count) of all shards of a leg: the OK/error histogram of the leg"""
+    tot = {}
+    for rc, out in res:
+        for l in out.splitlines():
+            if l.startswith("HIST "):
+                for kv in l.split()[2:]:
+                    k, _, v = kv.rpartition("=")
+                    if v.isdigit():
+                        tot[k] = tot.get(k, 0) + int(v)
+    ctx.corr[key] = " ".join("%s=%d" % kv for kv in sorted(tot.items()))
+
+
 def first_diff(a, b):
     pa, pb = a.split(" | "), b.split(" | ")
     for x, y in zip(pa, pb):
@@ -88,18 +101,65 @@ RACE_WHAT = {
                                 "topic but not for the channel (no serial order gives that)",
     "create-channel-vs-topic-delete": "POST /channel/create overlapping POST /topic/delete left the topic without the "
                                       "channel created with it, or the channel without its topic (no serial order gives that)",
+    "lookup-vs-topic-delete": "GET /lookup?topic=x overlapping a loop of POST /channel/create?topic=x&channel=c ; POST /topic/delete?topic=x "
+                              "answered 200 with channels [] although every state a serial order reaches has x together with c or "
+                              "neither (doLookup is three critical sections)",
+    "nodes-vs-topic-delete": "GET /nodes overlapping a loop of POST /topic/delete?topic=y ; REGISTER y by node A ; REGISTER y by node B "
+                             "listed y for B but not for A, a state no serial order reaches (doNodes is 1 + 2n critical sections)",
 }
 
 
-def races(ctx, binp, only=None):
+def tombstone_run(ctx, binr):
+    """audit B6: the -race build of the harness runs POST /topic/tombstone against GET /lookup, /nodes, /debug"""
+    if not binr:
+        return None
+    return e4.run_test(ctx, binr, "TestVerifE4TombstoneRace", {"VERIF_MS": ctx.budget(1000, 4000)}, 300)
+
+
+def tombstone_eval(ctx, res):
+    """The Go race detector is the oracle. A report naming (*Producer).Tombstone is the known finding
+    race:tombstone-unlocked-write; any other data race report is a finding of its own."""
+    if res is None:
+        return ["harness harness/e4 does not compile with -race against the current tree"]
+    rc, out = res
+    m = [l for l in out.splitlines() if l.startswith("TOMBRACE ")]
+    if not m:
+        ctx.log("tombstone race leg failed:\n" + out[-1500:])
+        return ["tombstone race leg (race build) exit %s without a result line" % rc]
+    rounds = int(m[0].split()[1].split("=")[1])
+    ctx.evaluations += rounds
+    blocks = out.split("WARNING: DATA RACE")[1:]
+    tomb = [b for b in blocks if "(*Producer).Tombstone" in b]
+    other = [b for b in blocks if "(*Producer).Tombstone" not in b]
+    ctx.corr.setdefault("races", {})["tombstone-unlocked-write"] = "race-detector reports=%d (other=%d) %s" % (
+        len(tomb), len(other), m[0][9:])
+    if tomb:
+        readers = sorted(set(w for b in tomb for w in ("IsTombstoned", "doDebug", "doNodes", "doLookup") if w in b))
+        ctx.violation("race:tombstone-unlocked-write",
+                      "Go data race: POST /topic/tombstone writes Producer.tombstoned/tombstonedAt outside the RegistrationDB lock "
+                      "while %s read them (%d race-detector reports in %d rounds)" % (", ".join(readers), len(tomb), rounds),
+                      "race tombstone-unlocked-write\n# run: ./check C14 --replay corpus/C14/known/races.ops\n" + tomb[0][:3000])
+    for b in other[:1]:
+        frames = [l.strip() for l in b.splitlines() if l.strip().startswith("github.com/nsqio/nsq/nsqlookupd.")][:2]
+        ctx.violation("race:data-race:" + "|".join(f.split("(")[0] + f.split(")")[0][-12:] for f in frames),
+                      "Go data race in nsqlookupd reported by the race detector: " + " / ".join(frames),
+                      "race tombstone-unlocked-write\n" + b[:3000])
+    return []
+
+
+def races_run(ctx, binp):
+    return e4.run_leg(ctx, binp, "TestVerifE4Races", {"VERIF_MS": ctx.budget(1200, 4000)}, 300)
+
+
+def races(ctx, binp, only=None, res=None):
     """known findings (concurrency): replayed on every run, reported only if they reproduce"""
-    rc, out = e4.run_leg(ctx, binp, "TestVerifE4Races", {"VERIF_MS": ctx.budget(1200, 4000)}, 300)
+    rc, out = res if res is not None else races_run(ctx, binp)
     seen = {}
     for l in out.splitlines():
         w = l.split()
         if len(w) == 4 and w[0] == "RACE":
             seen[w[1]] = (int(w[2].split("=")[1]), int(w[3].split("=")[1]))
-    ctx.corr["races"] = {k: "bad=%d rounds=%d" % v for k, v in seen.items()}
+    ctx.corr.setdefault("races", {}).update({k: "bad=%d rounds=%d" % v for k, v in seen.items()})
     if rc != 0:
         ctx.log("race harness failed:\n" + out[-1500:])
         return ["race harness exit %s" % rc]
@@ -108,21 +168,56 @@ def races(ctx, binp, only=None):
             continue
         ctx.evaluations += rounds
         if bad > 0:
-            ctx.violation("race:" + name, RACE_WHAT.get(name, name) + " (%d of %d rounds)" % (bad, rounds),
+            shape = ctx.corr.get("tree_shape") if isinstance(ctx.corr.get("tree_shape"), dict) else {}
+            if name in ("lookup-vs-topic-delete", "nodes-vs-topic-delete") and shape.get("readersAtomic") == "true":
+                # the facts say the reader is ONE critical section (concurrent_*_linearizable_fixed): a torn answer is then
+                # not the known finding but a new one
+                name += ":although-one-critical-section"
+            ctx.violation("race:" + name, RACE_WHAT.get(name.split(":")[0], name) + " (%d of %d rounds)" % (bad, rounds),
                           "race %s\n# run: ./check C14 --replay corpus/C14/known/races.ops\n" % name)
     return []
 
 
+def tree_shape(ctx):
+    """which critical-section shape the regenerated facts found (the Bools the `…_tree` theorems are stated over)"""
+    from framework import LEAN, sh
+    f = os.path.join(ctx.work, "shape.lean")
+    with open(f, "w") as fh:
+        fh.write("import Nsq.Tie.Registry\nopen Nsq.Tie.Registry in\n#eval IO.println s!\"SHAPE treeAtomic={treeAtomic} "
+                 "unregisterAtomic={unregisterAtomic} readersAtomic={readersAtomic} tombstoneAtomic={tombstoneAtomic}\"\n")
+    rc, out = sh(["lake", "env", "lean", f], cwd=LEAN, timeout=300)
+    m = [l for l in out.splitlines() if l.startswith("SHAPE ")]
+    shape = dict(kv.split("=") for kv in m[0].split()[1:]) if m else {}
+    ctx.corr["tree_shape"] = shape or ("not evaluated (tie does not build): " + out[-200:])
+    return shape
+
+
 def run(ctx):
-    ctx.trusted += e4.TRUSTED
+    ctx.trusted += [t for t in e4.TRUSTED if not t.startswith("Go memory model")]
+    ctx.trusted.append(
+        "Go memory model: a RegistrationDB method body between Lock/RLock and the deferred unlock is one atomic step w.r.t. "
+        "every other such body (sync.RWMutex). WHICH handlers are one such body is not trusted: regenerated lock/call facts "
+        "(Tie.Registry register_shape, unregister_shape, admin_topic_shape: fixed shapes only; readers_shape, tombstone_shape: "
+        "tree or F37/F38) compute treeAtomic / readersAtomic / tombstoneAtomic, the theorems `…_tree` are stated over them")
     ctx.assumptions += [
         "Nsq.Props.C14 (deterministic part) carries Op.modelled / t != '*'; Nsq.Props.C14Star removes both: POST "
         "/topic/tombstone?topic=* and GET /lookup?topic=* are modelled as SETS of allowed results (one per admissible "
         "outcome `pick` of Go's map iteration); the harness reads the outcome off the real run and model + oracle accept "
         "or refuse it",
-        "handler calls do not overlap in time (sequential histories; the concurrent leg checks quiescent points "
-        "of histories whose concurrent operations touch disjoint names). For overlapping calls on the SAME names the "
-        "statement is false (Lean: concurrent_*_linearizable_false; known findings race:*)",
+        "refines_run / history_answers are about histories whose handler calls do not overlap (one call = one step). "
+        "Overlapping calls: the WRITERS REGISTER, UNREGISTER channel, /topic/create|delete, /channel/create are one critical "
+        "section each on this tree (facts; concurrent_schedules_linearizable_tree) and so linearize; the READERS GET /lookup "
+        "and GET /nodes are several critical sections unless fixes/F37 is applied: concurrent_readers_linearizable_tree says "
+        "their answers are those of one serial order IFF readersAtomic, which the facts compute (false on the tree as it is: "
+        "concurrent_lookup_delete_linearizable_false, concurrent_nodes_delete_linearizable_false; known findings "
+        "race:lookup-vs-topic-delete, race:nodes-vs-topic-delete replayed on every run). Handlers that remain several "
+        "sections by design (UNREGISTER topic, the IOLoop exit = disconnect, /channel/delete) only remove: a reader sees "
+        "the registry after a PREFIX of their sections (atomic_reader_sees_prefix), e.g. a disconnecting node with part "
+        "of its topics",
+        "ASSUMPTION until fixes/F37+F38 are committed (tombstoneAtomic = false on this tree): the model's tombstone step "
+        "(tombstoneDB, one step) is atomic in the code. It is NOT: doTombstoneTopicProducer calls p.Tombstone() with no lock "
+        "held while FilterByActive / IsTombstoned / doDebug read the fields - a Go data race (known finding "
+        "race:tombstone-unlocked-write, replayed with a -race build on every run). Sequential histories are unaffected",
     ]
     ctx.rule = ("every history of length L over the full alphabet (2 producers x {IDENTIFY, PING, disconnect, "
                 "REGISTER/UNREGISTER x 2 topics (one #ephemeral) x {no channel, c, d#ephemeral}} + create/delete "
@@ -130,13 +225,22 @@ def run(ctx):
                 "answers (/topics, /channels, /lookup per topic, /nodes, /debug) compared after EVERY step; plus long "
                 "random histories (3 producers, two sharing one node address) and concurrent histories at quiescent "
                 "points. A case = (operation, resulting answers); non-trivial = the operation succeeded")
+    # the -race build of the harness (audit B6) compiles in the background while the Lean side is checked
+    import concurrent.futures
+    pool = concurrent.futures.ThreadPoolExecutor(max_workers=1)
+    race_bin = pool.submit(ctx.go_test_binary, "nsqlookupd", e4.HARNESS, "e4c14race", None, "verif", True)
     e4.lean_side(ctx, PROPS)
+    shape = tree_shape(ctx)
+    if shape:
+        print("tree shape (from regenerated facts): " + " ".join("%s=%s" % kv for kv in sorted(shape.items())))
     broken = []
     binp = e4.build_harness(ctx, "e4c14")
     first = e4.read_lines(ctx.replay_in)[:10] if ctx.replay_in else []
     if binp and ctx.replay_in and any(l.startswith("race ") for l in first):
         names = [l.split()[1] for l in e4.read_lines(ctx.replay_in) if l.startswith("race ")]
         broken += races(ctx, binp, only=names)
+        if "tombstone-unlocked-write" in names:
+            broken += tombstone_eval(ctx, tombstone_run(ctx, race_bin.result()))
         print("races: %s" % ctx.corr.get("races"))
     elif binp and ctx.replay_in:
         broken += replay(ctx, binp, os.path.abspath(ctx.replay_in), "replay")
@@ -146,7 +250,8 @@ def run(ctx):
             print("impl : " + l[:400])
             print("model: " + (ml[k][:400] if k < len(ml) else "<missing>"))
     elif binp:
-        broken += races(ctx, binp)
+        # the race legs (free-running goroutines, time-boxed) run next to the sequential legs; evaluated at the end
+        race_res = pool.submit(lambda: (races_run(ctx, binp), tombstone_run(ctx, race_bin.result())))
         for f in sorted(glob.glob(os.path.join(ROOT, "corpus", "C14", "*.ops"))):
             broken += replay(ctx, binp, f, "corpus:" + os.path.basename(f))
         nsh = 8
@@ -165,6 +270,26 @@ def run(ctx):
                 e4.hist_lines(ctx, out, "exhaustive_full_len%d_shard0" % L)
             broken += check_stream(ctx, "exh_%d" % s, os.path.join(ctx.work, "exh_%d.ops" % s),
                                    os.path.join(ctx.work, "exh_%d.impl" % s), sample=(s == 0))
+        hist_total(ctx, res, "exhaustive_full_len%d_all_shards" % L)
+        # audit B27: the same alphabet and length from the state in which both producers have IDENTIFYed (from the empty
+        # registry ~99 %% of the REGISTER/UNREGISTER steps are E_INVALID "client must IDENTIFY"): a strided 1/16 sample in
+        # the quick tier, 1/2 (78 732 histories, rotating with the seed) in the thorough tier (which must stay within ~10 min)
+        stride = ctx.budget(16 * nsh, 2 * nsh)
+        jobs = [(binp, "TestVerifE4Exhaustive", {"VERIF_LEN": L, "VERIF_SHARD": (s * (stride // nsh) + ctx.seed) % stride,
+                                                  "VERIF_NSHARD": stride, "VERIF_ALPHA": "full", "VERIF_PRE": "ident"}, 900)
+                for s in range(nsh)]
+        res = e4.run_parallel(ctx, jobs, workers=nsh)
+        for s, (rc, out) in enumerate(res):
+            sh = jobs[s][2]["VERIF_SHARD"]
+            if rc != 0:
+                ctx.log("exhaustive(identified) shard %d failed:\n%s" % (sh, out[-1500:]))
+                broken.append("exhaustive(identified) harness shard %d exit %s" % (sh, rc))
+                continue
+            if s == 0:
+                e4.hist_lines(ctx, out, "exhaustive_full_len%d_identified_shard" % L)
+            broken += check_stream(ctx, "exhp_%d" % sh, os.path.join(ctx.work, "exhp_%d.ops" % sh),
+                                   os.path.join(ctx.work, "exhp_%d.impl" % sh))
+        hist_total(ctx, res, "exhaustive_full_len%d_identified_all_shards" % L)
         # longer histories over the reduced alphabet (strided sample in the quick tier)
         jobs = []
         L2 = 4
@@ -252,6 +377,9 @@ def run(ctx):
         else:
             e4.hist_lines(ctx, out, "concurrent")
             broken += check_stream(ctx, "conc", os.path.join(ctx.work, "conc.ops"), os.path.join(ctx.work, "conc.impl"))
+        r1, r2 = race_res.result()
+        broken += races(ctx, binp, res=r1)
+        broken += tombstone_eval(ctx, r2)
     if (ctx.broken_ties or broken) and not ctx.violations:
         ctx.broken_without_input(ctx.broken_ties + broken,
                                  "search: %d generated (operation, answers) cases were all as the plain registry "
